@@ -59,7 +59,7 @@ var c12Classes = []string{"command", "label", "key", "envname", "envval", "plugi
 	"unkkey", "unkval", "matrixval", "adjwith", "sigvalue"}
 
 // c12Doc builds the step document from class -> string assignments.
-func c12Doc(assign map[string]string, p map[string]string, rng *rand.Rand, zerodim int, alias bool) (string, bool) {
+func c12Doc(assign map[string]string, p map[string]string, rng *rand.Rand, zerodim int, alias bool, twins []string) (string, bool) {
 	S := func(class string) string {
 		if s, ok := assign[class]; ok {
 			return s
@@ -72,6 +72,20 @@ func c12Doc(assign map[string]string, p map[string]string, rng *rand.Rand, zerod
 		{"plugins", []any{orderedJSON([][2]any{{S("pluginsrc"), orderedJSON([][2]any{{S("plugincfgkey"), S("plugincfgval")}, {"n", []any{S("plugincfgval"), 7, nil}}})}}), "./bare-plugin"}},
 		{S("unkkey"), orderedJSON([][2]any{{"deep", []any{S("unkval"), orderedJSON([][2]any{{S("unkkey") + "2", S("unkval")}})}}})},
 		{"signature", orderedJSON([][2]any{{"algorithm", "EdDSA"}, {"signed_fields", []any{"command"}}, {"value", S("sigvalue")}})},
+	}
+	if len(twins) == 2 {
+		// twin keys: two token-only keys side by side, where the FIRST one's dimension has a value that is spelled like the
+		// second key. Every key is replaced once, from its written form: `{{matrix.d2}}` (the first key's result) stays, the
+		// written `{{matrix.d2}}` becomes p[d2] - at the step's own level (a Go map), in a plugin config (a Go map) and in a
+		// nested unknown mapping (an ordered map)
+		t1, t2 := "{{matrix."+twins[0]+"}}", "{{matrix."+twins[1]+"}}"
+		step = append(step, [2]any{t1, "first"}, [2]any{t2, "second"},
+			[2]any{"twins_nested", orderedJSON([][2]any{{"z", 0}, {t1, 1}, {t2, 2}})})
+		for i := range step {
+			if step[i][0] == "plugins" {
+				step[i][1] = append(step[i][1].([]any), orderedJSON([][2]any{{"./twin-plugin", orderedJSON([][2]any{{t2, "second"}, {t1, "first"}})}}))
+			}
+		}
 	}
 	hasMatrix := len(p) > 0
 	if hasMatrix {
@@ -126,6 +140,7 @@ func c12Doc(assign map[string]string, p map[string]string, rng *rand.Rand, zerod
 
 func c12Event(c obj) obj {
 	assign := map[string]string{}
+	twins := strs(c["twins"])
 	strs := []any{}
 	for cl, v := range asMap(c["assign"]) {
 		vm := v.(map[string]any)
@@ -155,7 +170,10 @@ func c12Event(c obj) obj {
 		z64, _ := z.Int64()
 		zerodim = int(z64)
 	}
-	src, _ := c12Doc(assign, p, newRand(rot, "c12doc"), zerodim, c["alias"] == true)
+	for _, d := range twins {
+		strs = append(strs, []any{"{{matrix." + d + "}}", []any{obj{"t": "tok", "d": d, "a": "", "b": ""}}})
+	}
+	src, _ := c12Doc(assign, p, newRand(rot, "c12doc"), zerodim, c["alias"] == true, twins)
 	ev := obj{"c": c, "p": c["p"], "strings": strs}
 	pn, msg := guarded(func() {
 		pl, err := pipeline.Parse(strings.NewReader(src))
@@ -305,6 +323,14 @@ func c12RandomCase(rng *rand.Rand) obj {
 		}
 	}
 	out := obj{"assign": assign, "p": p, "alias": rng.Intn(3) == 0}
+	if len(dims) >= 2 && dims[0] != "" && rng.Intn(3) == 0 {
+		d1, d2 := dims[0], dims[1]
+		p[d1] = "{{matrix." + d2 + "}}"
+		if v, _ := p[d2].(string); strings.Contains(v, "{{") {
+			p[d2] = "prod"
+		}
+		out["twins"] = []any{d1, d2}
+	}
 	if len(dims) == 0 {
 		out["zerodim"] = rng.Intn(4) // 0: no matrix at all; 1-3: a matrix without dimensions
 	}
